@@ -108,7 +108,7 @@ def mk(role, name):
 class Err(Exception): pass
 def err(name):
     return type("E_" + name, (Exception,), {})
-ERRS = {n: err(n) for n in ("qa", "qb", "qc", "qd", "qm", "ia", "ib", "id", "pa", "pd")}
+ERRS = {n: err(n) for n in ("qa", "qb", "qc", "qd", "qm", "ia", "ib", "id", "pa", "pd", "ish", "qsa")}
 @icontract.invariant(mk("inv", "ia"), error=ERRS["ia"])
 class A(icontract.DBC):
     @icontract.require(mk("pre", "pa"), error=ERRS["pa"])
@@ -139,6 +139,16 @@ class D2(C, B):
     {adef} f(self):
         LOG.append(("body", "D2"))
         return 1
+# one invariant DECORATOR OBJECT used for a class and for its sub-class
+inv_shared = icontract.invariant(mk("inv", "ish"), error=ERRS["ish"])
+@inv_shared
+class SA(icontract.DBC):
+    @icontract.ensure(mk("post", "qsa"), error=ERRS["qsa"])
+    {adef} f(self):
+        return 1
+@inv_shared
+class SB(SA):
+    pass
 class D3(B, M):
     @icontract.ensure(mk("post", "qd"), error=ERRS["qd"])
     {adef} f(self):
@@ -150,6 +160,7 @@ class D3(B, M):
 MULTI = {
     "D": (["qa", "qb", "qc", "qd"], [("qa", "qb"), ("qa", "qc"), ("qb", "qd"), ("qc", "qd"), ("qa", "qd")], ["ia", "ib", "id"]),
     "D2": (["qa", "qb", "qc", "qd"], [("qa", "qb"), ("qa", "qc"), ("qb", "qd"), ("qc", "qd"), ("qa", "qd")], ["ia", "ib"]),
+    "SB": (["qsa"], [], ["ish"]),
     "D3": (["qa", "qb", "qm", "qd"], [("qa", "qb"), ("qb", "qd"), ("qm", "qd"), ("qa", "qd")], ["ia", "ib"]),
 }
 
@@ -206,7 +217,9 @@ def check_multi(acc):
                 out1, log1 = run({"pa": False})
                 acc.case(("multi", cls, is_async, ("pa",)), True, len(log1), out1)
                 n_pa = sum(1 for r, n in log1 if (r, n) == ("pre", "pa"))
-                if cls == "D3":
+                if cls == "SB":
+                    pass  # (no precondition in this hierarchy)
+                elif cls == "D3":
                     if out1 != "ret":
                         acc.violation(core.Violation(PROP, "wrong_error_or_evaluation_continued", dict(f0, falsy="pa"),
                                                      "D3.f() inherits f also from a base without preconditions, but the call gave {}".format(out1),
